@@ -67,6 +67,9 @@ const (
 	PrSketchFreshChecked
 	PrWaiterReleaseChecked // C15: a Wait blocked at a Clear's invocation was still in progress at its return
 	PrCloseWaiterAtSend    // C15: Close issued while a Wait was blocked on the full write buffer
+	PrModelDefinite
+	PrModelPending
+	PrModelUnknown
 	NumProbes
 )
 
@@ -83,6 +86,7 @@ var ProbeNames = []string{
 	"metrics_checked", "empty_check_skipped", "empty_checked", "fresh_checked", "closed_probed",
 	"unguaranteed_collision", "deadline_exempt", "get_hit", "c05_clear_exempt", "sketch_fresh_checked",
 	"waiter_release_checked", "close_waiter_at_send",
+	"model_definite", "model_pending", "model_unknown",
 }
 
 var curProbes [NumProbes]int
